@@ -8,6 +8,9 @@
   gc_finaliser_alloc_widens : bool   GC_Set widens the window minptr/maxptr for every registered address, also for one
                            registered by a finaliser while a sweep runs (true) / only after the early return
                            `if (gc->freelist isnt NULL) return;` (false = seeded defect C01-r2-2)
+  gc_recurse_returns, gc_mark_item_returns : nat   number of `return` statements in GC_Recurse (2: leaf type, after the
+                           Mark instance) and GC_Mark_Item (3: prefilter, end of the probe sequence, after tracing): no other
+                           early exit such as a nesting-depth cap (seeded defect C01-r5-2)
   gc_leaf_types   : list string   types GC_Recurse returns on at once
   gc_mark_shape_ok : bool  the functions the model transcribes (GC_Mark_Item, GC_Recurse, GC_Mark's
                            three passes, GC_Mark_Stack, the Mark instances of Array List Table Tree
@@ -95,6 +98,16 @@ def generate(repo, emit, src, func_body):
         emit('gc_leaf_types', 'Definition gc_leaf_types : list string := [%s]%%string.' % '; '.join('"%s"' % x for x in leaves))
     else:
         emit('gc_leaf_types', None)
+    # --- exits of the tracer: GC_Recurse returns early only on a leaf type (and after delegating to a Mark instance),
+    # GC_Mark_Item only on the prefilter, at the end of the probe sequence, and after tracing the entry it marked.
+    # Any further exit (e.g. a nesting-depth cap) would leave reachable objects unvisited: the model's mark phase has
+    # no depth bound, the implementation's depth is limited by the C stack only (finding F1).
+    ib = func_body(gc, r'static\s+void\s+GC_Mark_Item\s*\(\s*void\*\s*_gc\s*,\s*void\*\s*ptr\s*\)\s*\{')
+    if rb and ib:
+        emit('gc_tracer_exits', 'Definition gc_recurse_returns : nat := %d.\nDefinition gc_mark_item_returns : nat := %d.   (* number of `return` statements *)'
+             % (len(re.findall(r'\breturn\b', rb)), len(re.findall(r'\breturn\b', ib))))
+    else:
+        emit('gc_tracer_exits', None)
     # --- shapes
     bad = []
     for (file, hdr), want in EXPECT.items():
